@@ -38,6 +38,7 @@ type behGeneric struct {
 	consts []bool   // parameter i is a constant
 	goCons []string // Go constraint of parameter i
 	isType bool
+	alias  bool   // generic alias `type Name#[T] = ...` (no Go 1.21 rendering)
 	decl   string // for a function: "(xs []T) T { ... }", for a type: "struct { V T }"
 }
 
@@ -75,6 +76,11 @@ var behLib = []behGeneric{
 	{name: "Vec", params: []string{"T", "N"}, consts: []bool{false, true}, isType: true, decl: "[N]T"},
 	{name: "Fill", params: []string{"T", "N"}, consts: []bool{false, true}, decl: "(x T) @{Vec|T,N} { var a @{Vec|T,N}; for i := range a { a[i] = x }; return a }"},
 	{name: "AddN", params: []string{"N"}, consts: []bool{true}, decl: "(x int) int { return x + N }"},
+	// generic aliases (gomacro only: Go 1.21 has no generic aliases)
+	{name: "Opt", params: []string{"T"}, consts: []bool{false}, isType: true, alias: true, decl: "struct { Ok bool; V T }"},
+	{name: "Seq", params: []string{"T"}, consts: []bool{false}, isType: true, alias: true, decl: "[]T"},
+	{name: "Some", params: []string{"T"}, consts: []bool{false}, decl: "(x T) @{Opt|T} { return @{Opt|T}{true, x} }"},
+	{name: "Rev", params: []string{"T"}, consts: []bool{false}, decl: "(xs @{Seq|T}) @{Seq|T} { r := make(@{Seq|T}, 0, len(xs)); for i := len(xs) - 1; i >= 0; i-- { r = append(r, xs[i]) }; return r }"},
 }
 
 var behByName = map[string]*behGeneric{}
@@ -290,7 +296,12 @@ func behGenProg(seed int) *behProg {
 			c.site = []string{"type " + names[0] + " = " + t.text, "type " + names[1] + " = " + u.text}
 			tn, un = names[0], names[1]
 		}
-		switch k := r.Intn(20); k {
+		k := r.Intn(21)
+		if (k == 18 || k == 20) && r.Intn(3) != 0 {
+			// programs with constant parameters or generic aliases have no compiled-Go rendering: keep them rarer
+			k = r.Intn(18)
+		}
+		switch k {
 		case 0:
 			c.expr = fmt.Sprintf("@{Id|%s}(%s)", tn, t.vals[0])
 		case 1:
@@ -347,6 +358,10 @@ func behGenProg(seed int) *behProg {
 			p.hasC = true
 			n := 1 + r.Intn(3)
 			c.expr = fmt.Sprintf("fmt.Sprint(@{Fill|%s,%d}(%s), @{AddN|%d}(10), len(@{Vec|%s,%d}{}))", tn, n, t.vals[0], n+1, tn, n)
+		case 20:
+			// generic aliases: the instance IS the aliased type
+			p.hasC = true
+			c.expr = fmt.Sprintf("fmt.Sprint(@{Some|%s}(%s), @{Rev|%s}(%s), len(@{Seq|%s}{}), @{Opt|%s}{}.Ok)", tn, t.vals[0], tn, behSlice(t), tn, tn)
 		case 19:
 			// local named types, one per site, same name at every site
 			c.specOK = false
@@ -415,6 +430,9 @@ func behDecl(mode int, g *behGeneric) string {
 	kw, sep := "func ", ""
 	if g.isType {
 		kw, sep = "type ", " "
+		if g.alias {
+			sep = " = "
+		}
 	}
 	body := behExpand(g.decl, func(n string, a []string) string { return behRef(mode, n, a) })
 	switch mode {
@@ -452,7 +470,9 @@ func (ss *behSpecSet) need(name string, args []string) string {
 	}
 	body := behSubstParamsKeepRefs(g.decl, g.params, args)
 	body = behExpand(body, func(n string, a []string) string { return ss.need(n, a) })
-	if g.isType {
+	if g.isType && g.alias {
+		ss.decls = append(ss.decls, "type "+m+" = "+body)
+	} else if g.isType {
 		ss.decls = append(ss.decls, "type "+m+" "+body)
 	} else {
 		ss.decls = append(ss.decls, "func "+m+body)
@@ -689,7 +709,19 @@ func c35behExec(arg string) Result {
 		fail("beh-go-oracle-missing", "no compiled-Go output for this program")
 	}
 	if p.hasC {
+		res.Tags = append(res.Tags, "beh-no-go-rendering")
+	}
+	if strings.Contains(declsG+strings.Join(callsG, " "), "Some#[") {
+		res.Tags = append(res.Tags, "beh-generic-alias")
+	}
+	if strings.Contains(strings.Join(callsG, " "), "Fill#[") {
 		res.Tags = append(res.Tags, "beh-const-param")
+	}
+	if strings.Contains(declsG, "type E ") {
+		res.Tags = append(res.Tags, "beh-local-named-type")
+	}
+	if strings.Contains(declsG, "type T = ") || strings.Contains(declsG, "type U = ") || strings.Contains(declsG, "type K = ") {
+		res.Tags = append(res.Tags, "beh-site-alias-shadows-parameter")
 	}
 	// memoisation: every cache holds exactly the distinct argument lists of the program
 	if p.fixed == "" {
